@@ -6,7 +6,7 @@
 EXTENDS Integers, Sequences, TLC, Json, IOUtils, BigNat
 
 Trace == JsonDeserialize(IOEnv.TRACE_FILE)
-NMaxT == 230
+NMaxT == 270
 KMaxT == 14
 
 VARIABLES l, table, bad
